@@ -280,3 +280,300 @@ class C14Harness(DocMixin):
 
 
 HARNESSES["c14"] = C14Harness
+
+
+def _api_tuples(result):
+    return [(f.line_number, f.column_number, f.rule_id, f.rule_name, f.extra_error_information) for f in result.scan_failures]
+
+
+class C16Harness(DocMixin):
+    """All entry points on the same symbolic document (CR allowed).
+    params: skeleton, holes, disable (optional rule id disabled both ways), stack_trace"""
+
+    allow_cr = True
+
+    def __init__(self, params):
+        self._init_doc(params)
+        self.disable = params.get("disable")
+        self.pre = (["-d", self.disable] if self.disable else []) + (["--stack-trace"] if params.get("stack_trace") else [])
+        app.the_vfs()
+
+    def api(self):
+        from pymarkdown.api import PyMarkdownApi
+
+        a = PyMarkdownApi(inherit_logging=True)
+        if self.disable:
+            a = a.disable_rule_by_identifier(self.disable)
+        return a
+
+    def body(self, v):
+        from pymarkdown.api import PyMarkdownApiException
+
+        d = self.doc(v)
+        if d is None:
+            return SKIP
+        V = app.the_vfs()
+        routes = {}
+        o = app.run_main(self.pre + ["scan", F], [(F, d)])
+        failed = scan_props.mentions(o.err, "Error")
+        routes["scan-file"] = None if failed else o.fail_tuples()
+        o2 = app.run_main(self.pre + ["scan-stdin"], [], stdin=d)
+        routes["scan-stdin"] = None if scan_props.mentions(o2.err, "Error") else o2.fail_tuples()
+        left = [n for n, _ in o2.files]
+        if len(d) > 0:
+            V.reset()
+            try:
+                routes["api-scan_string"] = _api_tuples(self.api().scan_string(d))
+            except PyMarkdownApiException:
+                routes["api-scan_string"] = None
+            left += [n for n, _ in V.files]
+        V.reset()
+        V.put(F, d)
+        try:
+            routes["api-scan_path"] = _api_tuples(self.api().scan_path(F))
+        except PyMarkdownApiException:
+            routes["api-scan_path"] = None
+        fixed = {}
+        o3 = app.run_main(self.pre + ["fix", F], [(F, d)])
+        fixed["fix-file"] = None if (scan_props.mentions(o3.err, "Error") or o3.code == 1) else [t for n, t in o3.files if n == F][0]
+        if len(d) > 0:
+            V.reset()
+            try:
+                fixed["api-fix_string"] = self.api().fix_string(d).fixed_file
+            except PyMarkdownApiException:
+                fixed["api-fix_string"] = None
+            left += [n for n, _ in V.files]
+        return (d, routes, fixed, left)
+
+    def judge(self, obs, v):
+        if isinstance(obs, Raised):
+            return [{"kind": "harness-exception", "detail": obs.describe()}]
+        d, routes, fixed, left = obs
+        out = scan_props.c16(routes, fixed)
+        if left:
+            out.append({"kind": "temp-file-left", "detail": {"files": left}})
+        return out
+
+    def digest(self, obs, rv):
+        if isinstance(obs, Raised):
+            return "raised:" + obs.root_type + "@" + obs.site
+        d, routes, fixed, left = obs
+        with NoTracing():
+            r = routes.get("scan-file")
+            return "err" if r is None else ",".join(sorted({x[2] for x in r})) + "|" + ",".join(k for k, val in routes.items() if val is None)
+
+
+HARNESSES["c16"] = C16Harness
+
+
+A, B = "/vfs/a.md", "/vfs/b.md"
+
+
+class C13Harness:
+    """No carry-over: processing [d1, d2] in one invocation gives for d2 what d2 alone gives.
+    params: sk1/holes1 (first document), sk2/holes2 (second), mode scan|fix, api (bool: one
+    PyMarkdownApi object reused for scan_string(d1), scan_string(d2)), triple (d1,d2,d1)."""
+
+    restrict_domain = True
+
+    def __init__(self, params):
+        self.p = params
+        self.sk1, self.h1 = params["sk1"], list(params["holes1"])
+        self.sk2, self.h2 = params["sk2"], list(params["holes2"])
+        self.mode = params.get("mode", "scan")
+        self.api = bool(params.get("api"))
+        self.pre = app.rule_args(params.get("selection", "default"))
+        app.the_vfs()
+
+    def variables(self):
+        return [(f"c{i}", "int") for i in range(len(self.h1) + len(self.h2))]
+
+    def body(self, v):
+        cells = [v[f"c{i}"] for i in range(len(self.h1) + len(self.h2))]
+        for c in cells:
+            if not valid_cell(c):
+                return SKIP
+        if self.p.get("domain") == "finite":
+            for c in cells:
+                if not docs.in_finite(c):
+                    return SKIP
+            cells = [env.realize(c) for c in cells]
+        d1 = sym_doc(build_cells(self.sk1, self.h1, cells[: len(self.h1)]))
+        d2 = sym_doc(build_cells(self.sk2, self.h2, cells[len(self.h1):]))
+        if self.api:
+            return self.body_api(d1, d2)
+        om = app.run_main(self.pre + [self.mode, A, B], [(A, d1), (B, d2)])
+        os_ = app.run_main(self.pre + [self.mode, B], [(B, d2)])
+        if scan_props.mentions(om.err, "Error") or scan_props.mentions(os_.err, "Error"):
+            return ("error", d1, d2)
+        mf = [t[1:] for t in om.fail_tuples(with_file=True) if t[0] == B]
+        sf = [t[1:] for t in os_.fail_tuples(with_file=True)]
+        mp = [p[1:] for p in om.pragma if p[0] == B]
+        sp = [p[1:] for p in os_.pragma]
+        mt = [t for n, t in om.files if n == B][0]
+        st = [t for n, t in os_.files if n == B][0]
+        return ("ok", d1, d2, mf, sf, mp, sp, mt, st, B in om.fixed, B in os_.fixed)
+
+    def body_api(self, d1, d2):
+        from pymarkdown.api import PyMarkdownApi, PyMarkdownApiException
+
+        if len(d1) == 0 or len(d2) == 0:
+            return SKIP
+        V = app.the_vfs()
+        V.reset()
+        try:
+            one = PyMarkdownApi(inherit_logging=True)
+            one.scan_string(d1)
+            r_m = one.scan_string(d2)
+            r_s = PyMarkdownApi(inherit_logging=True).scan_string(d2)
+        except PyMarkdownApiException:
+            return ("error", d1, d2)
+        mf, sf = _api_tuples(r_m), _api_tuples(r_s)
+        mp = [(p.line_number, p.pragma_error) for p in r_m.pragma_errors]
+        sp = [(p.line_number, p.pragma_error) for p in r_s.pragma_errors]
+        return ("ok", d1, d2, mf, sf, mp, sp, "", "", False, False)
+
+    def judge(self, obs, v):
+        if isinstance(obs, Raised):
+            return [{"kind": "harness-exception", "detail": obs.describe()}]
+        if obs[0] == "error":
+            return []
+        _, d1, d2, mf, sf, mp, sp, mt, st, mfx, sfx = obs
+        return scan_props.c13(mf, sf, mp, sp, mt, st, mfx, sfx)
+
+    def digest(self, obs, rv):
+        if isinstance(obs, Raised):
+            return "raised:" + obs.root_type + "@" + obs.site
+        if obs[0] == "error":
+            return "error"
+        with NoTracing():
+            return ",".join(sorted({x[2] for x in obs[4]}))
+
+
+HARNESSES["c13"] = C13Harness
+
+
+class C18Kernel:
+    """ReturnCodeHelper: symbolic outcome category x scheme (chosen by argument or by
+    configuration) against the documented table."""
+
+    def __init__(self, params):
+        self.p = params
+
+    def variables(self):
+        return [("cat", "int"), ("minimal", "bool"), ("by_config", "bool")]
+
+    def body(self, v):
+        import argparse
+
+        from application_properties import ApplicationProperties
+        from pymarkdown.return_code_helper import ApplicationResult, ReturnCodeHelper
+
+        cat = v["cat"]
+        if not (0 <= cat <= 5):
+            return SKIP
+        results = [ApplicationResult.SUCCESS, ApplicationResult.NO_FILES_TO_SCAN, ApplicationResult.COMMAND_LINE_ERROR,
+                   ApplicationResult.FIXED_AT_LEAST_ONE_FILE, ApplicationResult.SCAN_TRIGGERED_AT_LEAST_ONCE, ApplicationResult.SYSTEM_ERROR]
+        names = ["success", "no-files", "command-line", "fixed", "failures", "system-error"]
+        idx = 0
+        while idx < 5 and not (cat == idx):
+            idx += 1
+        props = ApplicationProperties()
+        scheme = "minimal" if v["minimal"] else "default"
+        ReturnCodeHelper.reset()
+        if v["by_config"]:
+            props.load_from_dict({"mode": {"return_code_scheme": scheme}})
+            args = argparse.Namespace(return_code_scheme=None)
+        else:
+            args = argparse.Namespace(return_code_scheme=scheme)
+        ReturnCodeHelper.set_initial_state(args, props)
+        try:
+            ReturnCodeHelper.exit_application(results[idx])
+            code = None
+        except SystemExit as e:
+            code = e.code
+        return (code, names[idx], bool(v["minimal"]))
+
+    def judge(self, obs, v):
+        if isinstance(obs, Raised):
+            return [{"kind": "harness-exception", "detail": obs.describe()}]
+        code, name, minimal = obs
+        return scan_props.c18(code, [], [], [], minimal, forced_category=name)
+
+    def digest(self, obs, rv):
+        if isinstance(obs, Raised):
+            return "raised"
+        return f"{obs[1]}/{obs[2]}"
+
+
+class C18Harness(DocMixin):
+    """Whole program.  params: scenario, skeleton/holes (document of the symbolic file),
+    minimal (bool), scheme_by ('arg'|'set')."""
+
+    GOOD = "# ok\n"
+    BAD = "x  \n\n\ny"
+
+    def __init__(self, params):
+        self._init_doc(params)
+        self.sc = params["scenario"]
+        self.minimal = bool(params.get("minimal"))
+        self.pre = []
+        if self.minimal:
+            self.pre = ["--return-code-scheme", "minimal"] if params.get("scheme_by", "arg") == "arg" else ["-s", "mode.return_code_scheme=minimal"]
+        app.the_vfs()
+        self.R = recorder()
+
+    def variables(self):
+        v = DocMixin.variables(self)
+        if self.sc.startswith("fault"):
+            v = v + [("k", "int")]
+        return v
+
+    def body(self, v):
+        d = self.doc(v)
+        if d is None:
+            return SKIP
+        sc = self.sc
+        self.R.reset()
+        if sc == "scan1":
+            o = app.run_main(self.pre + ["scan", F], [(F, d)])
+        elif sc == "fix1":
+            o = app.run_main(self.pre + ["fix", F], [(F, d)])
+        elif sc == "scan2":
+            o = app.run_main(self.pre + ["scan", A, B], [(A, d), (B, self.BAD)])
+        elif sc == "fix2":
+            o = app.run_main(self.pre + ["fix", A, B], [(A, d), (B, self.GOOD)])
+        elif sc == "stdin":
+            o = app.run_main(self.pre + ["scan-stdin"], [], stdin=d)
+        elif sc == "list":
+            o = app.run_main(self.pre + ["scan", "-l", F], [(F, d)])
+        elif sc in ("fault", "fault-continue", "fault-fix"):
+            k = v["k"]
+            if not (0 <= k <= 60):
+                return SKIP
+            self.R.reset(fault_at=k)
+            argv = self.pre + ["--add-plugin", RECORDER] + (["--continue-on-error"] if sc == "fault-continue" else []) + ["fix" if sc == "fault-fix" else "scan", A, B]
+            o = app.run_main(argv, [(A, d), (B, self.GOOD)])
+        else:
+            raise ValueError(sc)
+        return o
+
+    def judge(self, obs, v):
+        if isinstance(obs, Raised):
+            return [{"kind": "harness-exception", "detail": obs.describe()}]
+        o = obs
+        fails = o.fails
+        if self.sc == "list":
+            fails = []
+        return scan_props.c18(o.code, o.err, fails, o.fixed, self.minimal)
+
+    def digest(self, obs, rv):
+        if isinstance(obs, Raised):
+            return "raised:" + obs.root_type + "@" + obs.site
+        with NoTracing():
+            se, nf = scan_props.classify_err(env.deep_realize(obs.err))
+            return f"{self.sc}:{obs.code}:{se}:{nf}:{bool(obs.fails)}:{bool(obs.fixed)}"
+
+
+HARNESSES["c18kernel"] = C18Kernel
+HARNESSES["c18"] = C18Harness
